@@ -88,3 +88,13 @@ chk("C18", "exploration",
     "295 000 (level, index, width) coordinates incl. every carry boundary of the path encoding up to 10^9 are compared with the reference tlog path; the real sumdb.FeedLog runs for all 44 850 (quick, <= 300) / 719 400 (thorough, <= 1200) size pairs against a server that rejects any tile that does not exist at that size or has the wrong width; each proof must verify under ref6962 and merkle and (boundary pairs, every 7th pair) be accepted by the real witness.",
     "Indices beyond 2100 only at carry boundaries; sizes up to 1200 on one generated tree.",
     "DESIGN.md §5 C18")
+chk("C14", "exploration",
+    "exhaustive enumeration of growth schedules through the real omniwitness.Main (generated configuration, real listener, in-process stub log servers), completion observed by events rather than time",
+    "Every strictly increasing growth schedule of length <= 3 (quick) / 4 (thorough) over ten tile-boundary sizes, each followed by a fork step, is followed by the assembled service: tiles feeder in running mode (in-memory, SQLite) and restart-between-steps mode (SQLite file) with one configured log per schedule; sumdb feeder one process per schedule (covering subset in quick, all in thorough). After each growth the checkpoint served over HTTP must be the log's head, cosigned; after the fork it must still be the last witnessed one.",
+    "The scenario space is exhaustive; goroutine interleavings and timer races inside Main are NOT enumerated (whole-system schedules are outside what exhaustive interleaving exploration can do). Liveness deadlines (>= 100x normal latency) only terminate a broken build.",
+    "DESIGN.md §5 C14, §7")
+chk("C19", "exploration",
+    "bounded-exhaustive input enumeration (complete 1-edit neighbourhoods, token strings, size boundaries) against the real endpoint, and deviation-bounded enumeration of hostile server answers / log-signed checkpoints for every feeder in worker subprocesses with stall detection",
+    "344 000 request bodies (complete 1-edit neighbourhood of a valid request of 11 verdict classes, all token strings to length 4/5, size boundaries) go through the real handler behind the 16 KiB cap in two witness states and through both parsers: no panic, one response, documented status. Every feeder (sumdb, tiles, pixel, rekor, serverless) and the distributor run one cycle per placement of up to 1 (quick) / 2 (thorough) deviating answers from a 13-item menu at every request position and per hostile log-signed checkpoint (8 sizes x 5 hash lengths x 2 witness states); a cycle that panics, kills the process or makes no progress for 20 s (confirmed 3 times) is a violation.",
+    "Not all byte strings up to 16 KiB (coverage-guided fuzzing is another family): the stated neighbourhoods and menus, completely. A retry loop that runs until its context ends is by design and is cut at the first back-off wait.",
+    "DESIGN.md §5 C19")
